@@ -10,7 +10,7 @@ use crate::simdisk::{ErrK, SimDisk};
 use dsi_bitstream::prelude::*;
 use std::cell::RefCell;
 use std::convert::Infallible;
-use std::io::{BufReader, BufWriter, ErrorKind};
+use std::io::{BufReader, BufWriter, Cursor, ErrorKind};
 use std::rc::Rc;
 
 // ---------------------------------------------------------------- errors
@@ -177,6 +177,9 @@ pub enum RdInner<W: SimWord> {
     SliceBack(MemWordWriterSlice<W, Vec<W>>),
     Adapter(WordAdapter<W, SimDisk>),
     BufAdapter(WordAdapter<W, BufReader<SimDisk>>),
+    /// the real std::io::Cursor (no faults), directly and through std BufReader
+    Cursor(WordAdapter<W, Cursor<Vec<u8>>>),
+    BufCursor(WordAdapter<W, BufReader<Cursor<Vec<u8>>>>),
     Faulty(FaultyWordRead<W>),
 }
 
@@ -206,7 +209,7 @@ impl<W: SimWord> AnyWordRead<W> {
     pub fn can_clone(&self) -> bool {
         matches!(
             self.inner,
-            RdInner::MemInf(_) | RdInner::MemStrict(_) | RdInner::Adapter(_) | RdInner::Faulty(_)
+            RdInner::MemInf(_) | RdInner::MemStrict(_) | RdInner::Adapter(_) | RdInner::Cursor(_) | RdInner::Faulty(_)
         )
     }
 }
@@ -217,6 +220,7 @@ impl<W: SimWord> Clone for AnyWordRead<W> {
             RdInner::MemInf(r) => RdInner::MemInf(r.clone()),
             RdInner::MemStrict(r) => RdInner::MemStrict(r.clone()),
             RdInner::Adapter(r) => RdInner::Adapter(r.clone()),
+            RdInner::Cursor(r) => RdInner::Cursor(r.clone()),
             RdInner::Faulty(r) => RdInner::Faulty(r.clone()),
             _ => panic!("harness error: clone of a non-clonable backend"),
         };
@@ -259,6 +263,8 @@ impl<W: SimWord> WordRead for AnyWordRead<W> {
             RdInner::SliceBack(r) => r.read_word().map_err(SimErr::from),
             RdInner::Adapter(r) => r.read_word().map_err(SimErr::from),
             RdInner::BufAdapter(r) => r.read_word().map_err(SimErr::from),
+            RdInner::Cursor(r) => r.read_word().map_err(SimErr::from),
+            RdInner::BufCursor(r) => r.read_word().map_err(SimErr::from),
             RdInner::Faulty(r) => r.read_word(),
         };
         let mut st = self.stats.borrow_mut();
@@ -283,6 +289,8 @@ impl<W: SimWord> WordSeek for AnyWordRead<W> {
             RdInner::SliceBack(r) => r.word_pos().map_err(SimErr::from),
             RdInner::Adapter(r) => r.word_pos().map_err(SimErr::from),
             RdInner::BufAdapter(r) => r.word_pos().map_err(SimErr::from),
+            RdInner::Cursor(r) => r.word_pos().map_err(SimErr::from),
+            RdInner::BufCursor(r) => r.word_pos().map_err(SimErr::from),
             RdInner::Faulty(r) => r.word_pos(),
         }
     }
@@ -294,6 +302,8 @@ impl<W: SimWord> WordSeek for AnyWordRead<W> {
             RdInner::SliceBack(r) => r.set_word_pos(p).map_err(SimErr::from),
             RdInner::Adapter(r) => r.set_word_pos(p).map_err(SimErr::from),
             RdInner::BufAdapter(r) => r.set_word_pos(p).map_err(SimErr::from),
+            RdInner::Cursor(r) => r.set_word_pos(p).map_err(SimErr::from),
+            RdInner::BufCursor(r) => r.set_word_pos(p).map_err(SimErr::from),
             RdInner::Faulty(r) => r.set_word_pos(p),
         };
         if r.is_ok() {
